@@ -6,7 +6,10 @@ EXTENDS Ast, TLC, Json
 Carriers == {"var", "param", "result", "elem", "field", "indexof", "elembox", "fieldbox"}
 Types == {"int", "str", "list"}
 Uses == {"eqnil", "nenil", "get", "or", "orlit", "unwrap_if", "unwrap_stmt", "unwrap_print",
-         "unwrap_while", "eqval", "getuse", "orchain", "unwrap_nested", "unwrap_twice", "unwrap_nested_twice", "or_closure", "or_use", "get_use", "nil_left", "unwrap_arith"}
+         "unwrap_while", "eqval", "getuse", "orchain", "unwrap_nested", "unwrap_twice", "unwrap_nested_twice", "or_closure", "or_use", "get_use", "nil_left", "unwrap_arith",
+         \* `get x` as a statement of its own (a guard: the value is not used, the check still happens), and `get` on a source
+         \* line behind text with multi-byte characters (the reported position counts characters)
+         "get_stmt", "get_sameline"}
 Positions == {"stmt", "inif", "inwhile", "infn"}
 
 (* excluded: an int captured by a function literal is refused as a list index by the type   *)
@@ -69,6 +72,9 @@ UseStmts(s) ==
     CASE s.use = "eqnil" -> <<Print(Bin("==", E(s), Nil))>>
       [] s.use = "nenil" -> <<Print(Bin("!=", E(s), Nil))>>
       [] s.use = "get" -> <<Print(Get(E(s)))>>
+      [] s.use = "get_stmt" -> <<ExprS(Get(E(s))), Print(S("guarded"))>>
+      [] s.use = "get_sameline" -> <<[k |-> "if", c |-> Bin("!=", S("größe 日本"), S("x")), t |-> <<Print(Get(E(s)))>>, e |-> <<>>,
+                                      haselse |-> FALSE, elif |-> FALSE, oneline |-> TRUE]>>
       [] s.use = "or" -> <<Print(Or(E(s), Call(V("dflt"), <<>>)))>>
       \* the fallback of `or` is a variable that the function literal captures and uses nowhere else;
       \* the function runs after the frame that owned the variable is gone
